@@ -9,6 +9,20 @@ NOTES = ("Technique family: static analysis only. Every check extracts the progr
 _TB = ("Trusted: rustc nightly front end (HIR/MIR, types, trait resolution), the hcx export, the rule tables. ")
 
 CLAIMED = {
+    "C19": {
+        "text": "Decides structural necessary conditions of extraction, trace and packing: extract_lwe keeps coefficient "
+                "`term` of every RNS component of c0 and shifts c1 by exactly 2N - term (0 for term 0); assemble_lwe stores "
+                "residue i at index i*N; on the BFV, CKKS and BGV projections of extraction, field trace, division by N and "
+                "packing no step mixes coefficient-form and NTT-form data, the negacyclic shift and butterfly merge run in "
+                "coefficient form, the automorphism runs in the representation its scheme requires and results leave with "
+                "data matching their flag; the trace and packing loops advance.",
+        "note": _TB + "Not decided: where coefficients land as a function of the runtime index, count and trace parameter "
+                "(the stride, the factor N/2^l, the zeros), coverage of the automorphism key set, the CKKS error bound. The "
+                "butterfly merge of pack_lwe_ciphertexts works on raw-pointer views of one vector's elements, which the "
+                "typestate does not track individually (a documented miss in the mutant catalogue).",
+        "technique": "symbolic index polynomials of the gather/scatter pair + scheme-projected representation typestate + loop-progress rule",
+        "design_ref": "DESIGN.md §9.5",
+    },
     "C10": {
         "text": "Decides one structural necessary condition of the clauses about division by the last prime (rounding "
                 "identical in coefficient and NTT form, the BGV variant): in the four kernels, for every base order and "
@@ -238,6 +252,4 @@ _NYB = "rules designed (DESIGN.md §4) but not built yet in this tree; not claim
 NOT_APPLICABLE = {
     "C07": "every clause compares a reported integer with exact big-integer arithmetic on runtime phase/noise "
            "values; no necessary condition is visible in the shape of the code (DESIGN.md §5)",
-    "C19": "every clause is about where coefficients land as a function of runtime indices and counts; static "
-           "shape rules do not bound them (DESIGN.md §5)",
 }
